@@ -65,7 +65,10 @@ def gen_rfcomm(rng, tier, seed):
             open_set.add(d)
         else:
             ops.append(['settle'])
-    return {'a': a, 'b': b, 'ndlc': ndlc, 'ops': ops, 'shutdown': rng.random() < 0.5, 'profile': rng.choice(PROFILE_NAMES), 'late_sink': rng.random() < 0.3}
+    case = {'a': a, 'b': b, 'ndlc': ndlc, 'ops': ops, 'shutdown': rng.random() < 0.5, 'profile': rng.choice(PROFILE_NAMES), 'late_sink': rng.random() < 0.3}
+    # without a client shutdown: the multiplexer is disconnected by the initiator (0), the acceptor (1) or both ends (2) with a stagger
+    case['mux_close'] = rng.choice([None, [0, 0], [1, 0], [2, 0], [2, 0], [2, rng.choice([0.0002, 0.001, 0.005])]]) if not case['shutdown'] else None
+    return case
 
 
 def parse_rfcomm(frame: bytes):
@@ -350,6 +353,28 @@ def run_rfcomm(case):
                 sim.loop.settle()
                 if muxes and muxes[0].state not in (muxes[0].State.DISCONNECTED, muxes[0].State.RESET):
                     sim.violation_once('shutdown', f'rfcomm:acceptor-multiplexer-state-after-shutdown:{muxes[0].state.name}', '')
+        if case.get('mux_close') and muxes and not sim.violations:
+            who, stagger = case['mux_close']
+
+            async def later(m, delay):
+                if delay:
+                    await asyncio.sleep(delay)
+                await m.disconnect()
+            ends = [mux, muxes[0]]
+            ts = [sim.loop.create_task(later(ends[s], stagger if (who == 2 and s == 1) else 0)) for s in ((0, 1) if who == 2 else (who,))]
+            st = sim.loop.drive(lambda: all(t.done() for t in ts), 60.0)
+            sim.probe('both_ends_disconnect_the_multiplexer' if who == 2 else 'multiplexer_disconnected_by_one_end')
+            if st != 'done':
+                sim.violation_once('muxclose', f'rfcomm:multiplexer-disconnect-hangs:by={("initiator", "acceptor", "both")[who]}', describe_task(next(t for t in ts if not t.done())))
+                for t in ts:
+                    t.cancel()
+            else:
+                sim.loop.settle()
+                for t in ts:
+                    if not t.cancelled():
+                        t.exception()  # being told that it is closed already is not judged
+                if mux.state != mux.State.DISCONNECTED or muxes[0].state != muxes[0].State.DISCONNECTED:
+                    sim.violation_once('muxclose', f'rfcomm:multiplexer-states-after-disconnect:by={("initiator", "acceptor", "both")[who]}:{mux.state.name}/{muxes[0].state.name}', '')
         sim.trace.shape(a['mfs'], b['mfs'], a['credits'], b['credits'], ndlc, tuple(o[0] for o in case['ops']))
         return result(sim, nontrivial=sim.probes['credits_hit_zero'] > 0 or reopened > 0)
     finally:
